@@ -114,6 +114,121 @@ theorem conv_checked_fails_on_name (t : Enc) : ∀ (cs : List Comp) (buf : Bytes
             simp only [h4, Bool.false_eq_true, if_false] at hfail
             exact ih _ buf c post rfl hn hfail
 
+/-! ### a forbidden byte in a name is rejected -/
+
+/-- separators of the target encoding (either slash on Windows) -/
+def tsep : Enc → UInt8 → Bool
+  | .unix, y => usep y
+  | .windows, y => anySep y
+
+theorem mem_untoks {ts : List Tok} {y : UInt8} (h : y ∈ untoks ts) : ∃ t ∈ ts, y ∈ t.bytes := by
+  induction ts with
+  | nil => simp [untoks] at h
+  | cons t r ih =>
+    simp only [untoks, List.mem_append] at h
+    rcases h with h | h
+    · exact ⟨t, by simp, h⟩
+    · obtain ⟨t', ht', hy⟩ := ih h
+      exact ⟨t', by simp [ht'], hy⟩
+
+theorem names_mem {cs : List Comp} {s : Bytes} (h : s ∈ C03.names cs) : Comp.normal s ∈ cs := by
+  induction cs with
+  | nil => simp [C03.names] at h
+  | cons c r ih =>
+    cases c with
+    | normal s' =>
+      simp only [C03.names, List.mem_cons] at h
+      rcases h with h | h
+      · subst h; simp
+      · simp [ih h]
+    | _ => simp only [C03.names] at h; simp [ih h]
+
+theorem nameToks_mem {ts : List Tok} {s : Bytes} (hs : Tok.seg s ∈ ts) (hn : C03.isName s = true) :
+    s ∈ C03.nameToks ts := by
+  induction ts with
+  | nil => simp at hs
+  | cons t r ih =>
+    rcases List.mem_cons.mp hs with h | h
+    · subst h; simp [C03.nameToks, hn]
+    · cases t with
+      | sep x => simp only [C03.nameToks]; exact ih h
+      | seg s' =>
+        simp only [C03.nameToks]
+        split
+        · simp [ih h]
+        · exact ih h
+
+/-- the tokens of a fresh parser are well-formed for a separator set contained in `tsep` -/
+theorem new_toks_wf (t : Enc) (b : Bytes) :
+    ∃ f : UInt8 → Bool, WFToks f (t.new b).toks ∧ ∀ y, f y = true → tsep t y = true := by
+  cases t with
+  | unix => exact ⟨usep, WFToks_toks usep b, fun _ h => h⟩
+  | windows =>
+    simp only [Enc.new]
+    split
+    · exact ⟨_, WFToks_toks _ _, fun y h => Win.wsep_imp_anySep h⟩
+    · exact ⟨_, WFToks_toks _ _, fun y h => Win.wsep_imp_anySep h⟩
+
+/-- **A name containing a target-forbidden byte is rejected by the checked push** (unless that
+byte is a separator of the target: then the name is split instead — known finding K4). -/
+theorem push_checked_rejects_forbidden (t : Enc) (buf name : Bytes) (y : UInt8) (hy : y ∈ name)
+    (hf : (forbidden t).contains y = true) (hns : tsep t y = false) :
+    ∃ e, pushChecked t buf name = .error e := by
+  unfold pushChecked
+  cases hs : checkedScan t 0 (comps t name) with
+  | some err => exact ⟨err, rfl⟩
+  | none =>
+    exfalso
+    obtain ⟨hplain, _⟩ := (C04.scan_none_iff t _ 0).mp hs
+    obtain ⟨hcons, hnames⟩ := C03.dei_conservation t name
+    rw [← hcons] at hy
+    rcases List.mem_append.mp hy with hy | hy
+    · -- in the prefix text: the path has a prefix component
+      cases hp : (t.new name).pre with
+      | none => simp [PState.preBytes, hp] at hy
+      | some p =>
+        have : Comp.pfx p ∈ comps t name := by
+          rw [C03.comps_new_closed, hp]; simp
+        have := (hplain _ this).1
+        simp [Comp.isPfx] at this
+    · obtain ⟨tok, htok, hyt⟩ := mem_untoks hy
+      obtain ⟨f, hw, hsub⟩ := new_toks_wf t name
+      cases tok with
+      | sep x =>
+        simp only [Tok.bytes, List.mem_singleton] at hyt
+        subst hyt
+        have := hsub y (Comb.WF_mem_sep hw y htok)
+        rw [hns] at this; cases this
+      | seg s =>
+        simp only [Tok.bytes] at hyt
+        by_cases hn : C03.isName s = true
+        · have hmem : Comp.normal s ∈ comps t name := names_mem (by rw [hnames]; exact nameToks_mem htok hn)
+          have hv := (hplain _ hmem).2.2
+          simp only [Comp.isValid, Bool.not_eq_true', List.any_eq_false] at hv
+          exact hv y hyt hf
+        · -- `.` or `..`: the byte would be a dot, which no encoding forbids
+          have hdot : y = DOT := by
+            simp only [C03.isName, Bool.and_eq_true, decide_eq_true_eq, not_and, Classical.not_not] at hn
+            by_cases h1 : s = CUR
+            · rw [h1] at hyt; simpa [CUR] using hyt
+            · have h2 := hn h1
+              rw [h2] at hyt; simpa [PAR] using hyt
+          subst hdot
+          cases t <;> revert hf <;> decide
+
+/-- **It fails whenever a source name contains a byte the target forbids** (other than a target
+separator): the conversion of a path one of whose names contains such a byte is an error. -/
+theorem conv_checked_fails_forbidden (s t : Enc) (b : Bytes) (hst : s ≠ t) (nm : Bytes) (y : UInt8)
+    (hmem : Comp.normal nm ∈ comps s b) (hy : y ∈ nm)
+    (hf : (forbidden t).contains y = true) (hns : tsep t y = false) :
+    ∃ e, withEncodingChecked s t b = .error e := by
+  unfold withEncodingChecked
+  simp only [hst, if_false]
+  obtain ⟨pre, post, hsplit⟩ := List.append_of_mem hmem
+  refine conv_checked_fails_on_name t _ [] pre (.normal nm) post hsplit rfl ?_
+  intro r _
+  exact push_checked_rejects_forbidden t r nm y hy hf hns
+
 /-! ### non-vacuity -/
 
 /-- the hypothesis is satisfiable (the K4 witness is a successful checked conversion) -/
